@@ -33,10 +33,11 @@ class FpExec:
         s.wheres = []      # (lineno, guard, condition)  conditions of np.where calls, with the guard under which the call's value is used
         s.sqrts = []       # (lineno, guard, argument)
         s.guard = [z3.BoolVal(True)]
+        s.commute = False
         s.side = []        # constraints defining nondeterministic library results (libm pow)
 
-    def run(s, fn):
-        s.env = {"x": s.x}
+    def run(s, fn, env=None):
+        s.env = dict(env) if env is not None else {"x": s.x}
         for st in fn.body:
             if isinstance(st, ast.Expr) and isinstance(st.value, ast.Constant):
                 continue
@@ -102,9 +103,14 @@ class FpExec:
             f = {ast.Add: z3.fpAdd, ast.Sub: z3.fpSub, ast.Mult: z3.fpMul, ast.Div: z3.fpDiv}.get(type(e.op))
             if f is None:
                 raise Unsupported(f"operator {type(e.op).__name__}")
+            if isinstance(e.op, (ast.Add, ast.Mult)) and s.commute and str(a) > str(b):
+                a, b = b, a          # IEEE addition and multiplication are commutative bit for bit: operands in a canonical order, so that f(a, b) and f(b, a) of a
+                                     # syntactically symmetric body are the SAME term (no bit-blasting of a multiplier needed to see it)
             return f(RNE, a, b)
         if isinstance(e, ast.Compare) and len(e.ops) == 1:
             a, b = s.num(s.ev(e.left)), s.num(s.ev(e.comparators[0]))
+            if isinstance(e.ops[0], ast.NotEq):
+                return z3.Not(z3.fpEQ(a, b))
             f = {ast.Lt: z3.fpLT, ast.LtE: z3.fpLEQ, ast.Gt: z3.fpGT, ast.GtE: z3.fpGEQ, ast.Eq: z3.fpEQ}.get(type(e.ops[0]))
             if f is None:
                 raise Unsupported("comparison")
@@ -120,6 +126,8 @@ class FpExec:
                 return z3.If(z3.fpLT(b, a), b, a) if t == "min" else z3.If(z3.fpGT(b, a), b, a)
             if t in ("np.maximum", "np.minimum") and len(e.args) == 2:      # NaN-propagating element-wise max / min
                 a, b = s.num(s.ev(e.args[0])), s.num(s.ev(e.args[1]))
+                if s.commute and str(a) > str(b):
+                    a, b = b, a          # symmetric up to the sign of a zero result (max(+0, -0)), which no comparison or arithmetic result here distinguishes
                 r = z3.If(z3.fpGT(a, b), a, b) if t == "np.maximum" else z3.If(z3.fpLT(a, b), a, b)
                 return z3.If(z3.Or(z3.fpIsNaN(a), z3.fpIsNaN(b)), z3.fpNaN(F64), r)
             if t == "np.square":
